@@ -565,6 +565,52 @@ def number_model(kind: str) -> str:
     )
 
 
+#: everything that needs a snippet: an implementation-specific class, method, constructor and verification function
+SPECIFIC_MODEL = GEN_HEADER + '''\
+@implementation_specific
+class Special(DBC):
+    """Represent something special."""
+
+    val: str
+    """Hold a value."""
+
+    def __init__(self, val: str) -> None:
+        self.val = val
+
+
+class Plain(DBC):
+    """Represent something with an implementation-specific constructor."""
+
+    @implementation_specific
+    def __init__(self) -> None:
+        pass
+
+
+class Thing(DBC):
+    """Represent a thing."""
+
+    special: Special
+    """Hold something special."""
+
+    plain: Plain
+    """Hold something plain."""
+
+    def __init__(self, special: Special, plain: Plain) -> None:
+        self.special = special
+        self.plain = plain
+
+    @implementation_specific
+    def compute(self) -> str:
+        """Compute something."""
+
+
+@verification
+@implementation_specific
+def is_fine(text: str) -> bool:
+    """Check it."""
+'''
+
+
 def generator_error_models() -> List[Tuple[str, str]]:
     """Seed independent: one model per position of an unrenderable description, two positions at once, unrepresentable numbers."""
     out = [("description-nowhere", description_model(()))]
@@ -599,7 +645,7 @@ def dropped_errors(res: Dict[str, Any], target: str) -> List[Tuple[str, str]]:
 
 
 def generator_error_stream(
-    ctx: Ctx, scratch: pathlib.Path, only: Optional[Tuple[str, str]] = None, models: Optional[List[Tuple[str, str]]] = None
+    ctx: Ctx, scratch: pathlib.Path, only: Optional[Tuple[str, ...]] = None, models: Optional[List[Tuple[str, str]]] = None
 ) -> List[Dict[str, Any]]:
     """Accepted models on which a generator has to report an error (or not), all targets, with full snippet sets."""
     from harness import mm
@@ -607,6 +653,8 @@ def generator_error_stream(
     seen: List[Dict[str, Any]] = []
     if models is None:
         models = [(c["name"], c["model"]) for c in corpus(ID) if c.get("kind") == "generator-error"] + generator_error_models()
+        # every snippet of the model in which everything is implementation-specific, left out one at a time
+        models = models + [("missing-snippet", SPECIFIC_MODEL)]
     for k, (name, text) in enumerate(models):
         if only is not None and name != only[0]:
             continue
@@ -615,18 +663,29 @@ def generator_error_stream(
             raise RuntimeError(f"the model {name} of the generator-error stream is not accepted: {ld.error or ld.crash}")
         path = scratch / f"generr_{k}.py"
         path.write_text(text, encoding="utf-8")
+        runs: List[Tuple[str, Optional[str]]] = []
         for target in TARGETS:
             if only is not None and target != only[1]:
                 continue
-            snippets = scratch / f"generr_{k}_{target}_snippets"
+            if name == "missing-snippet":
+                keys = sorted(mm.snippets_for(target, ld.symbol_table))
+                runs += [(target, key) for key in keys if only is None or len(only) < 3 or only[2] == key]
+            else:
+                runs.append((target, None))
+        for j, (target, missing) in enumerate(runs):
+            snippets = scratch / f"generr_{k}_{j}_snippets"
             for rel, content in mm.snippets_for(target, ld.symbol_table).items():
+                if rel == missing:
+                    continue
                 (snippets / rel).parent.mkdir(parents=True, exist_ok=True)
                 (snippets / rel).write_text(content, encoding="utf-8")
-            out = scratch / f"generr_{k}_{target}_out"
+            out = scratch / f"generr_{k}_{j}_out"
             res = run_cli(path, target, snippets, out, scratch, spy=True)
-            ctx.count(("generator-error", name, target), nontrivial=True, stream="cli-generator-error")
+            ctx.count(("generator-error", name, target, missing), nontrivial=True, stream="cli-generator-error" if missing is None else "cli-missing-snippet")
             ctx.hit(f"generator-error:rc={res['rc']}" if res["exc"] is None else f"generator-error:{res['exc']}")
             inp = {"kind": "generator-error", "name": name, "target": target, "model": text}
+            if missing is not None:
+                inp["missing"] = missing
             for sig, what in judge(res):
                 ctx.fail(inp, what, sig + ":generator-error")
             dropped = dropped_errors(res, target)
@@ -635,7 +694,7 @@ def generator_error_stream(
                 sig = f"C03:error-dropped:generator:{site}"
                 if sum(1 for f in ctx.failures if f["sig"] == sig) < 2:
                     ctx.fail(inp, f"{target} exits {res['rc']}, but the error constructed in {site} is not in the report: {message[:200]!r}", sig)
-            seen.append({"name": name, "target": target, "rc": res["rc"], "exc": res["exc"], "dropped": dropped, "stderr": res["stderr"][:300]})
+            seen.append({"name": name, "target": target, "missing": missing, "rc": res["rc"], "exc": res["exc"], "dropped": dropped, "stderr": res["stderr"][:300]})
             shutil.rmtree(out, ignore_errors=True)
             shutil.rmtree(snippets, ignore_errors=True)
     return seen
@@ -750,7 +809,8 @@ def replay(ctx: Ctx, data: Dict[str, Any]) -> Any:
         return res
     if inp.get("kind") == "generator-error":
         # exactly the recorded model (whether or not it still is a part of the enumerated stream)
-        return generator_error_stream(ctx, scratch, only=(inp["name"], inp["target"]), models=[(inp["name"], inp["model"])])
+        only = (inp["name"], inp["target"]) + ((inp["missing"],) if "missing" in inp else ())
+        return generator_error_stream(ctx, scratch, only=only, models=[(inp["name"], inp["model"])])
     for kind, model, target, snippets, out in cli_inputs(ctx, scratch):
         if kind == inp["kind"] and target == inp["target"] and (kind not in ("valid", "rejected-model") or str(model) == inp["model"]):
             res = run_cli(model, target, snippets, out, scratch)
